@@ -175,6 +175,23 @@ def panel(objs):
     return out
 
 
+def _is_length_entry(objs, qi):
+    """Index qi of panel(objs) is a signed-length entry."""
+    i = 0
+    for o in objs:
+        if model.is_defined(o):
+            if qi == i + 1:
+                return True
+            i += 4
+        elif model.is_shape(o):
+            i += 1
+        else:
+            if qi == i:
+                return True
+            i += 2
+    return False
+
+
 def _ask(fn):
     try:
         return ("ok", _plain(fn()))
@@ -297,8 +314,11 @@ def inject(case, k, mode, exc_name, ref, deep):
             return "VIOLATION", f"operand {i} no longer denotes its region: {why}", site
     # 2a. answers as before
     pan_after = panel(objs)
-    for qa, qb in zip(pan_after, pan_before):
-        same = (qa == qb) if exact else (qa[0] == qb[0] and _plain_close(qa[1], qb[1], 1e-9))
+    curved = bool(tol and tol.curved)
+    for qi, (qa, qb) in enumerate(zip(pan_after, pan_before)):
+        # the library's own quadrature of a curved length depends on how the arcs are cut
+        rel = 1e-9 if not curved else (1e-2 if _is_length_entry(objs, qi) else 1e-5)
+        same = (qa == qb) if exact else (qa[0] == qb[0] and _plain_close(qa[1], qb[1], rel))
         if not same:
             return "VIOLATION", f"a query on the operands answers {qa!r}, before the call {qb!r}", site
     # 2b. exactly as their deep copies do (no hidden state left behind)
@@ -451,6 +471,7 @@ def _worker_task(case, ks, mode, excs, deep_every):
     faulthandler.dump_traceback_later(TASK_WALL, exit=True)
     out = {"fired": 0, "not_fired": 0, "swallowed": 0, "violations": [], "harness": [], "sites": set(),
            "by_exc": {}}
+    t_task = time.time()
     try:
         ref = count_pass(case, mode)
         for i, k in enumerate(ks):
@@ -479,6 +500,7 @@ def _worker_task(case, ks, mode, excs, deep_every):
     finally:
         faulthandler.cancel_dump_traceback_later()
     out["sites"] = sorted(out["sites"])
+    out["wall"] = time.time() - t_task
     return out
 
 
@@ -526,13 +548,23 @@ def check(tier, seed, jobs):
         n = counts[i]["structural"]
         is_cat = i < len(cat)
         if is_cat:
-            if tier == "thorough" and n > 10000:
-                st = max(1, n // 6000)
-                ks = list(range(1 + (seed % st), n + 1, st))
-                exhaustive = False
+            curved = not all(isinstance(v, str) or kernel.is_polygonal(model.from_jsonable(v))
+                             for v in c["operands"])
+            if tier == "thorough":
+                if n > 10000 or curved:
+                    want = 2500 if not curved else 600
+                else:
+                    want = n
             else:
-                ks = list(range(1 + offset, n + 1, stride))
-                exhaustive = stride == 1
+                want = max(40, min(80, n // 16))
+            want = min(want, n)
+            if want >= n:
+                ks = list(range(1, n + 1))
+            else:
+                # evenly spaced, phase taken from the seed
+                ks = sorted(set(1 + ((seed * 7 + (j * n) // want + (seed % max(1, n // want))) % n)
+                                for j in range(want)))
+            exhaustive = want >= n
             # dirty windows and their edges are always included
             d = counts[i]["dirty"]
             edge = set()
@@ -551,7 +583,7 @@ def check(tier, seed, jobs):
         plan[i] = {"structural_events": n, "all_events": counts[i]["all"], "points": len(ks),
                    "exhaustive": exhaustive, "dirty_events": len(counts[i]["dirty"])}
         excs = ["interrupt", "interrupt", "memory", "assertion", "value", "type", "zerodiv"]
-        chunk = 40
+        chunk = 10 if counts[i]["all"] > 500000 else 40
         for j in range(0, len(ks), chunk):
             tasks.append((i, "structural", ks[j:j + chunk], excs))
         # leaf events: seeded sample over all events
@@ -559,6 +591,7 @@ def check(tier, seed, jobs):
         m = (6 if tier == "quick" else 60) if is_cat else (3 if tier == "quick" else 12)
         lk = sorted(set(rng.randint(1, max(1, nall)) for _ in range(m)))
         tasks.append((i, "all", lk, ["interrupt", "memory"]))
+    tasks.sort(key=lambda t: -counts[t[0]]["all"] * len(t[2]))  # expensive chunks first
     totals = {"fired": 0, "not_fired": 0, "swallowed": 0, "by_exc": {}, "by_mode": {"structural": 0, "all": 0}}
     sites = set()
     violations = []
@@ -581,6 +614,7 @@ def check(tier, seed, jobs):
             for k, v in out["by_exc"].items():
                 totals["by_exc"][k] = totals["by_exc"].get(k, 0) + v
             per_case_fired[i] = per_case_fired.get(i, 0) + out["fired"]
+            plan[i]["cpu_s"] = round(plan[i].get("cpu_s", 0) + out["wall"], 1)
             sites.update(tuple(s) for s in out["sites"])
             for v in out["violations"]:
                 v["case_index"] = i
